@@ -210,8 +210,11 @@ func Features(p *Prog) Feat {
 				f.Phi = true
 				stmts(s.Then, depth+1, local)
 				stmts(s.Else, depth+1, local)
-			case SFor:
+			case SFor, SForRange:
 				f.Loop = true
+				if s.K == SForRange {
+					f.Array = true
+				}
 				stmts(s.Body, depth+1, local)
 			case SReturn:
 				if depth > 0 || i < len(list)-1 {
